@@ -12,6 +12,7 @@ and pinned by golden AST shape (fail closed when the source shape changes):
   data_operations._value_fits / _iceberg_type_to_arrow   the list<element> branches (element = text[5:-1], recursion)
   data_structures.Schema.__post_init__        field ids are integers (bool excluded); duplicate ids / names refused
   transaction.append_files / _with_verified_bounds / append_data   bounds supplied with a pre-built file are recomputed
+  transaction.append_data                     the schema argument object is validated again (Schema(...)) before it is compared
 and, for the behaviour under storage faults (Model/SchemaTx.v), regenerated as booleans -- is the failing
 operation outside every `try`, so that its exception reaches the caller? --
   transaction._resolve_table_schema           self.metadata_manager.refresh()     -> resolve_refresh_propagates
@@ -326,6 +327,9 @@ def check_more_pins(src: str) -> None:
             "self._operations.append({'type': 'append_files', 'files': files})", "return self"]
     if app[-3:] != want:
         raise Unsupported(f"append_files: queueing changed (bounds of pre-built files must be verified first): {app[-3:]}")
+    app_data = _u(find_function(mod, "append_data", cls="Transaction"))
+    if "else: Schema(schema_id=schema.schema_id, fields=schema.fields) self._validate_schema_against_table(schema)" not in app_data:
+        raise Unsupported("append_data no longer re-validates the schema argument object (Schema(...)) before comparing it with the table's")
     whole = ast.unparse(mod)
     if whole.count("_statistics_computed_here=True") != 1 or \
             "self.append_files([updated_data_file], _statistics_computed_here=True)" not in _u(find_function(mod, "append_data", cls="Transaction")):
